@@ -48,7 +48,10 @@ def crc24q_table(data: bytes) -> int:
 
 def frame(payload: bytes) -> bytes:
     """Reference RTCM3 transport frame around a payload of <= 1023 bytes."""
-    assert len(payload) <= 1023
+    if len(payload) > 1023:
+        from .core import Broken  # pylint: disable=import-outside-toplevel
+
+        raise Broken(f"reference frame() asked for a {len(payload)}-byte payload")
     body = b"\xd3" + len(payload).to_bytes(2, "big") + payload
     return body + crc24q_table(body).to_bytes(3, "big")
 
